@@ -514,7 +514,7 @@ func runC16(c *Ctx) {
 	// the wrapped body installed as (part of) a message source: hardLimitReader{r: body} / current = body
 	envLenF := p.MustField("envelope", "length")
 	wholeGuard := func(b *ssa.BasicBlock) bool {
-		for _, f := range FactsAt(b) {
+		for _, f := range p.FactsAtInter(b) { // also the facts at the single call site of an extracted helper (refactoring B21_r6)
 			if cmp, ok := f.AsCmp(); ok && cmp.Op == token.EQL && IsNilConst(cmp.Y) && LoadedField(cmp.X) == clientEnvF {
 				return true
 			}
